@@ -545,7 +545,7 @@ SPEC_APSTATS = {
     'semimajor_sigma': K('free', md=True), 'semiminor_sigma': K('free', md=True), 'sky_centroid': K('skip'),
     'sky_centroid_icrs': K('skip'), 'std': K('free', unit='data'), 'sum': K('free', unit='data'),
     'sum_aper_area': K('free'), 'sum_err': K('free', unit='data'), 'var': K('free', unit='data2'),
-    'xcentroid': K('x', 'ycentroid', md=True), 'ycentroid': K('y', 'xcentroid', md=True),
+    'xcentroid': K('x', 'ycentroid', md=True), 'ycentroid': K('y', 'xcentroid', md=True), '_notes': K('skip'),
 }
 
 
@@ -556,6 +556,19 @@ def prep_apstats(rng, scene):
         pos = pos[0]
     cls = _opt(rng, *APER_CLASSES)
     ap = draw_aperture(rng, cls, pos)
+    use_mask = _use(rng, 0.5)
+    special = _opt(rng, None, None, None, None, 'tiny', 'masked')
+    if special == 'tiny':
+        # sub-pixel aperture: zero or one pixel centre inside (single-pixel statistics, degenerate moments)
+        ap = dict(cls='CircularAperture', pos=XY(pos), p=dict(r=float(rng.uniform(0.3, 0.95))), theta=None)
+    elif special == 'masked' and scene['mask'].v.any():
+        # small aperture centred on a masked pixel: fully (or almost fully) masked aperture -> NaN statistics
+        ys, xs = np.nonzero(scene['mask'].v)
+        j = int(rng.integers(0, len(ys)))
+        p0 = np.array([float(xs[j]), float(ys[j])]) + rng.uniform(-0.2, 0.2, 2)
+        pos = p0 if scalar else np.vstack([p0[None, :], np.atleast_2d(pos)[1:]])
+        ap = dict(cls='CircularAperture', pos=XY(pos), p=dict(r=float(rng.uniform(0.4, 1.3))), theta=None)
+        use_mask = True
     n = 1 if scalar else len(pos)
     lb = _opt(rng, None, None, 'scalar', 'array')
     local_bkg = None
@@ -563,7 +576,7 @@ def prep_apstats(rng, scene):
         local_bkg = float(rng.normal(0, 1))
     elif lb == 'array':
         local_bkg = rng.normal(0, 1, n)
-    return dict(aper=ap, use_error=_use(rng), use_mask=_use(rng, 0.5),
+    return dict(aper=ap, use_error=_use(rng), use_mask=use_mask, special=special,
                 clip=_opt(rng, None, None, 3.0, 2.5), sum_method=_opt(rng, 'exact', 'exact', 'center', 'subpixel'),
                 subpixels=int(rng.integers(1, 8)), local_bkg=local_bkg, scalar=scalar)
 
@@ -630,6 +643,10 @@ def run_apstats(s, o):
         num = float(np.sum(np.abs(vals)) + lb_ * vals.size)
         den = abs(float(np.asarray(m)[0, 0]))
         cond.append(np.inf if not np.isfinite(den) or den == 0 else num / den)
+    sm = np.asarray(split_unit(out['sum'])[0], float).ravel()
+    ca = np.asarray(split_unit(out['center_aper_area'])[0], float).ravel()
+    out['_notes'] = {'rows': len(sm), 'rows_nan_sum(no unmasked pixel)': int(np.isnan(sm).sum()),
+                     'rows_center_area<=1(single pixel or none)': int((ca <= 1).sum())}
     return out, rows, np.array(cond)
 
 
@@ -889,15 +906,15 @@ SPEC_CAT = {
     'bbox_ymax': K('iy', 'bbox_xmax'), 'bbox_ymin': K('iy', 'bbox_xmin'),
     'centroid': K('xy'), 'centroid_quad': K('xy'), 'centroid_win': K('xy'),
     'convdata': K('img', unit='data'), 'convdata_ma': K('img'),
-    'covar_sigx2': K('free', 'covar_sigy2'), 'covar_sigxy': K('free'), 'covar_sigy2': K('free', 'covar_sigx2'),
-    'covariance': K('mat2'), 'covariance_eigvals': K('free'),
+    'covar_sigx2': K('free', 'covar_sigy2', md=True), 'covar_sigxy': K('free', md=True), 'covar_sigy2': K('free', 'covar_sigx2', md=True),
+    'covariance': K('mat2', md=True), 'covariance_eigvals': K('free', md=True),
     'cutout_centroid': K('cxy'), 'cutout_centroid_quad': K('cxy'), 'cutout_centroid_win': K('cxy'),
     'cutout_maxval_index': K('ciyx'), 'cutout_minval_index': K('ciyx'),
-    'cxx': K('free', 'cyy'), 'cxy': K('free'), 'cyy': K('free', 'cxx'),
+    'cxx': K('free', 'cyy', md=True), 'cxy': K('free', md=True), 'cyy': K('free', 'cxx', md=True),
     'data': K('img', unit='data'), 'data_ma': K('img'),
-    'eccentricity': K('free'), 'ellipticity': K('free'), 'elongation': K('free'), 'equivalent_radius': K('free'),
+    'eccentricity': K('free', md=True), 'ellipticity': K('free', md=True), 'elongation': K('free', md=True), 'equivalent_radius': K('free'),
     'error': K('img', unit='data'), 'error_ma': K('img'), 'extra_properties': K('skip'),
-    'fwhm': K('free'), 'gini': K('free'), 'inertia_tensor': K('mat2'), 'isscalar': K('free', per_row=False),
+    'fwhm': K('free', md=True), 'gini': K('free'), 'inertia_tensor': K('mat2', md=True), 'isscalar': K('free', per_row=False),
     'kron_aperture': K('aper'), 'kron_flux': K('free', unit='data'), 'kron_fluxerr': K('free', unit='data'),
     'kron_radius': K('free'), 'label': K('skip'), 'labels': K('free'),
     'local_background': K('free', unit='data'), 'local_background_aperture': K('aper'),
@@ -905,11 +922,11 @@ SPEC_CAT = {
     'maxval_xindex': K('ix', 'maxval_yindex'), 'maxval_yindex': K('iy', 'maxval_xindex'),
     'min_value': K('free', unit='data'), 'minval_index': K('iyx'),
     'minval_xindex': K('ix', 'minval_yindex'), 'minval_yindex': K('iy', 'minval_xindex'),
-    'moments': K('mom'), 'moments_central': K('mom'), 'nlabels': K('free', per_row=False),
-    'orientation': K('theta_deg'), 'perimeter': K('free'), 'properties': K('skip'),
+    'moments': K('mom'), 'moments_central': K('mom', md=True), 'nlabels': K('free', per_row=False),
+    'orientation': K('theta_deg', md=True), 'perimeter': K('free'), 'properties': K('skip'),
     'segment': K('img'), 'segment_area': K('free'), 'segment_flux': K('free', unit='data'),
     'segment_fluxerr': K('free', unit='data'), 'segment_ma': K('img'),
-    'semimajor_sigma': K('free'), 'semiminor_sigma': K('free'),
+    'semimajor_sigma': K('free', md=True), 'semiminor_sigma': K('free', md=True),
     'sky_bbox_ll': K('skip'), 'sky_bbox_lr': K('skip'), 'sky_bbox_ul': K('skip'), 'sky_bbox_ur': K('skip'),
     'sky_centroid': K('skip'), 'sky_centroid_icrs': K('skip'), 'sky_centroid_quad': K('skip'),
     'sky_centroid_win': K('skip'), 'slices': K('slices'),
@@ -922,13 +939,16 @@ SPEC_CAT = {
     'm_fluxfrac_r50': K('free'), 'm_fluxfrac_r80': K('free'),
     'm_circ_flux': K('free', unit='data'), 'm_circ_fluxerr': K('free', unit='data'),
     'm_kron_apertures2': K('aper'), 'm_circ_apertures': K('aper'),
-    'm_cutout_data': K('img'), 'm_cutout_bbox': K('bbox'),
+    'm_cutout_data': K('img'), 'm_cutout_bbox': K('bbox'), '_notes': K('skip'),
 }
 
 
 def prep_catalog(rng, scene):
-    kp = _opt(rng, (2.5, 1.4, 0.0), (2.5, 1.4, 0.0), (2.0, 1.0, 2.5), (3.0, 2.0), (2.5, 1.4, 4.0))
-    return dict(use_error=_use(rng, 0.7), use_mask=_use(rng, 0.5), use_bkg=_use(rng, 0.8),
+    kp = _opt(rng, (2.5, 1.4, 0.0), (2.5, 1.4, 0.0), (2.0, 1.0, 2.5), (3.0, 2.0), (2.5, 1.4, 4.0), (2.5, 1.4, 6.0))
+    hostile = scene.get('hostile') or []
+    # masks placed next to a peak / over a whole segment only act when the mask is passed
+    pm = 0.85 if ('peakmask' in hostile or 'allmasked' in hostile) else 0.5
+    return dict(use_error=_use(rng, 0.7), use_mask=_use(rng, pm), use_bkg=_use(rng, 0.8),
                 use_conv=_use(rng, 0.5), localbkg_width=int(_opt(rng, 0, 0, 4, 6, 9)),
                 apermask_method=_opt(rng, 'correct', 'mask', 'none'), kron_params=kp,
                 kron2=(float(rng.uniform(1.5, 2.6)), float(rng.uniform(0.8, 1.6))),
@@ -1056,20 +1076,72 @@ def make_catalog(s, o):
     return cat
 
 
+def fallback_counters(out):
+    """How many rows took a documented fallback branch (evidence only, never a verdict)."""
+    def arr(n):
+        v = out.get(n)
+        if v is None or isinstance(v, Raised):
+            return None
+        return np.asarray(split_unit(v)[0], float)
+    c = {}
+    cen, quad, win = arr('centroid'), arr('centroid_quad'), arr('centroid_win')
+    if cen is not None:
+        cen = cen.reshape(-1, 2)
+        c['rows'] = len(cen)
+        c['rows_nan_centroid(all masked / no flux)'] = int(np.isnan(cen).any(axis=1).sum())
+        if quad is not None:
+            q = quad.reshape(-1, 2)
+            c['rows_centroid_quad==centroid(fit failed -> barycentre)'] = int(np.all(q == cen, axis=1).sum())
+        if win is not None:
+            w = win.reshape(-1, 2)
+            c['rows_centroid_win==centroid(reset to isophotal)'] = int(np.all(w == cen, axis=1).sum())
+    kr = arr('kron_radius')
+    if kr is not None:
+        c['rows_kron_radius==0(minimum circular radius)'] = int((kr.ravel() == 0).sum())
+    area = arr('area')
+    if area is not None:
+        a = area.ravel()
+        c['rows_single_pixel'] = int((a == 1).sum())
+        c['rows_2to5_pixels'] = int(((a >= 2) & (a <= 5)).sum())
+    return c
+
+
 def run_catalog(s, o):
     if s['segm'].max() == 0:
         return {'nlabels': 0}, np.zeros((0, 4))
     cat = make_catalog(s, o)
     out = catalog_outputs(cat, o, methods=o['methods'])
     rows = catalog_rows(out, o, o['kron_params'])
-    return out, rows
+    out['_notes'] = fallback_counters(out)
+    # rows without positive flux (fully masked, or no positive pixel): centroid NaN, zeroth moment 0 -> the central
+    # moments are 0*NaN products whose NaN pattern depends on the order of the matrix products; such rows are
+    # "infinitely ill conditioned" for the moment-derived outputs (all other outputs are still compared)
+    cen = np.asarray(split_unit(out['centroid'])[0], float).reshape(-1, 2)
+    cond = np.where(np.isnan(cen).any(axis=1), np.inf, 1.0)
+    return out, rows, cond
 
 
 # data_properties: one source = the whole (masked) array -> transposition and representation only
 def prep_dataprops(rng, scene):
     src = scene['src'].v[0]
     h = Pair((int(rng.integers(6, 12)), int(rng.integers(6, 12))))
-    return dict(center=XY(np.rint(src)), half=h, use_mask=_use(rng, 0.5), use_bkg=_use(rng, 0.5))
+    mode = _opt(rng, 'source', 'source', 'source', 'peakmask', 'peakmask', 'tiny', 'edge')
+    d = dict(center=XY(np.rint(src)), half=h, use_mask=_use(rng, 0.5), use_bkg=_use(rng, 0.5), mode=mode,
+             own_mask=None)
+    if mode == 'peakmask':
+        # 5 of the 9 pixels around the brightest pixel of the cutout masked: quadratic fit has < 6 points -> fallback
+        d['use_mask'] = True
+        d['own_mask'] = Img(np.array([[0, 0, 0], [0, 0, 1], [1, 1, 1]], bool) if rng.random() < 0.5
+                            else np.array([[1, 1, 0], [1, 0, 0], [1, 1, 0]], bool))
+    elif mode == 'edge':
+        # the source peak sits on the border of the cutout (no fit is performed: position of the maximum)
+        off = np.array([h.v[1] * int(rng.choice([-1, 0, 1])), h.v[0] * int(rng.choice([-1, 1]))], dtype=float)
+        d['center'] = XY(np.rint(src) + off)
+    elif mode == 'tiny':
+        # 1x1 .. 2x3 cutouts (single-pixel source, < 6 pixels)
+        d['half'] = Pair((int(rng.integers(0, 2)), int(rng.integers(0, 2))))
+        d['tiny_extra'] = Pair((int(rng.integers(0, 2)), int(rng.integers(0, 2))))
+    return d
 
 
 _DP_NAMES = ['xcentroid', 'ycentroid', 'centroid', 'bbox', 'bbox_xmin', 'bbox_xmax', 'bbox_ymin', 'bbox_ymax',
@@ -1086,13 +1158,21 @@ def run_dataprops(s, o):
     from photutils.morphology import data_properties
     cx, cy = (int(v) for v in o['center'])
     hy, hx = o['half']
-    sl = (slice(cy - hy, cy + hy + 1), slice(cx - hx, cx + hx + 1))
+    ey, ex = o.get('tiny_extra', (0, 0))
+    sl = (slice(cy - hy, cy + hy + 1 + ey), slice(cx - hx, cx + hx + 1 + ex))
     data = s['data'][sl]
     mask = s['mask'][sl] if o['use_mask'] else None
     bkg = s['bkg'][sl] if o['use_bkg'] else None
+    if o.get('own_mask') is not None:
+        dd = np.where(np.isfinite(data), data, -np.inf)
+        iy, ix = np.unravel_index(np.argmax(dd), dd.shape)
+        iy, ix = min(max(iy, 1), data.shape[0] - 2), min(max(ix, 1), data.shape[1] - 2)
+        mask = np.array(mask, copy=True)
+        mask[iy - 1:iy + 2, ix - 1:ix + 2] |= np.asarray(o['own_mask'], bool)
     cat = data_properties(data, mask=mask, background=bkg)
     oo = dict(o, kron_params=(2.5, 1.4, 0.0))
     out = catalog_outputs(cat, oo, names=_DP_NAMES, methods=False)
+    out['_notes'] = fallback_counters(out)
     return out, None
 
 
